@@ -306,11 +306,14 @@ PROPS["C04"] = _tx("C04", ["C04_delivery_is_final", "C04_no_integrity_failure_af
     "system-level statement (the only source of Finished PDUs is the receiver); it is covered by the sender model taking "
     "its Finished indication from the received Finished PDU, not by a separate theorem. Re-spawn of an already ENDED "
     "transaction by the daemon is C11's.")
-PROPS["C10"] = _tx("C10", ["C10_cancel_effect", "C10_no_file_after_cancel", "C10_peer_cancel"], ["recv", "send"],
+PROPS["C10"] = _tx("C10", ["C10_cancel_effect", "C10_no_file_after_cancel", "C10_peer_cancel", "C10_user_cancel_ends_data",
+                           "C10_cancelled_sender_sends_no_data"], ["recv", "send"],
     "Proof (safety half) on the receive-transaction model: a user cancel or a peer cancel (EOF with an error condition) "
     "moves to the Cancelled phase with the cancel condition, and from then on no operation sequence writes the filestore - "
-    "a partial file is never exposed. Lock-step correspondence for receiver and sender plus an oracle on the real code "
-    "(destination must not appear or change after a cancel that preceded delivery).",
+    "a partial file is never exposed; on the send-transaction model: a user cancel in any phase moves to Cancelled and from there "
+    "(or from the phase entered on a Finished PDU) no operation - NAKs included - makes the sender transmit file data or Metadata "
+    "again. Lock-step correspondence for receiver and sender plus oracles on the real code "
+    "(destination must not appear or change after a cancel that preceded delivery; no file data after a user cancel; an EOF(cancel) goes out).",
     " Termination of the cancel handshake within the limits is the subject of C03 (partial); 'at the peer too when "
     "reachable' needs the two-machine composition and is exercised by the lock-step scripts only.")
 
